@@ -456,6 +456,23 @@ func runScenario(sc *Scenario) (res result) {
 					}
 				}()
 			}
+		case "ini-testreq-burst", "acc-testreq-burst": // 30 TestRequests with ascending identifiers "q000".."q029" from a goroutine of its own
+			side, sn := "ini", iniSess
+			if st.Op == "acc-testreq-burst" {
+				accMu.Lock()
+				side, sn = "acc", accSess
+				accMu.Unlock()
+			}
+			_ = side
+			if sn != nil {
+				bursts.Add(1)
+				go func() {
+					defer bursts.Done()
+					for k := 0; k < 30; k++ {
+						_ = sn.Send(fixgen.TestRequest{}.New().SetFieldTestReqID(fmt.Sprintf("q%03d", k)))
+					}
+				}()
+			}
 		case "ini-askresend": // the application asks the peer to send everything again (as tests/initiator.go does)
 			_ = iniSess.Send(fixgen.ResendRequest{}.New().SetFieldBeginSeqNo(1).SetFieldEndSeqNo(0))
 		case "acc-askresend":
